@@ -23,6 +23,7 @@ type Env struct {
 	idx     int
 	pkg     *types.Package
 	bound   map[string]*Val
+	call    ssa.Instruction // the call an at-call clause is evaluated at
 }
 
 func (e *FEnc) fnEnv(st, old *State, extra map[string]*Val) *Env {
@@ -648,6 +649,19 @@ func (e *FEnc) evalCall(env *Env, x *Ex) (*Val, error) {
 			}
 		}
 		return nil, fmt.Errorf("len of sort %s", a.Sort)
+	case "ownedstr": // ownedstr($k): the k-th argument of this call is a string the function made itself (see owned.go)
+		if len(x.Args) != 1 || x.Args[0].Op != "id" || !strings.HasPrefix(x.Args[0].Name, "$") || env.call == nil {
+			return nil, fmt.Errorf("ownedstr($k) in an at-call clause")
+		}
+		k, err := strconv.Atoi(x.Args[0].Name[1:])
+		ci, ok := env.call.(ssa.CallInstruction)
+		if err != nil || !ok || k >= len(ci.Common().Args) {
+			return nil, fmt.Errorf("ownedstr: no argument %s", x.Args[0].Name)
+		}
+		if ownedString(ci.Common().Args[k], 0) {
+			return e.boolVal("true"), nil
+		}
+		return e.boolVal("false"), nil
 	case "samearray": // samearray(a, b): the two slices are views of the same backing array
 		if err := evalArgs(); err != nil {
 			return nil, err
